@@ -3,12 +3,13 @@
 # build the harness (and sysl) against it and run one check there. Nothing in /repo or
 # /verif/evidence is touched. Prints the check's output; exit code is the check's.
 set -u
-PATCH=$(realpath "$1"); PROP=$2; TIER=${3:-quick}
+# env MUT_REPO=<dir>: copy that tree instead of /repo (e.g. a seed worktree at its base commit); patch "none" = apply nothing.
+if [ "$1" = none ]; then PATCH=none; else PATCH=$(realpath "$1"); fi; PROP=$2; TIER=${3:-quick}
 S=$(mktemp -d /var/tmp/mut.XXXXXX)
 trap 'rm -rf "$S"' EXIT
 export GOFLAGS=-mod=mod GOPROXY=off GOSUMDB=off GOTOOLCHAIN=local CGO_ENABLED=1
-rsync -a --exclude .git /repo/ "$S/repo/"
-( cd "$S/repo" && patch -s -p1 < "$PATCH" ) || { echo "patch failed"; exit 9; }
+rsync -a --exclude .git --exclude SEED "${MUT_REPO:-/repo}/" "$S/repo/"
+if [ "$PATCH" != none ]; then ( cd "$S/repo" && patch -s -p1 < "$PATCH" ) || { echo "patch failed"; exit 9; }; fi
 mkdir -p "$S/verif/bin"; cp /verif/known_findings.jsonl "$S/verif/" 2>/dev/null
 /verif/tools/mutbuild.sh "$S/repo" "$S/verif/bin/vcheck" ./cmd/vcheck || { echo "mutant does not build"; exit 8; }
 case "$PROP" in C05|C06|C07|C19) /verif/tools/mutbuild.sh "$S/repo" "$S/verif/bin/vcheck.race" ./cmd/vcheck -race || exit 8;; esac
